@@ -29,7 +29,13 @@ pub const N_TOK: usize = N_NATIVE + N_CW20;
 /// The fourth native denom is built per case: `factory/verif/cw20:<address of cw20 token 0>` - a bank coin
 /// whose name merely *contains* the cw20 marker (it does not start with it, so the section 3 assumption
 /// is untouched): it is a native coin through and through.
-pub const NATIVE: [&str; 3] = ["uatom", "ujuno", "uatom/lp"];
+pub const NATIVE: [&str; 3] = ["uatom", "UATOM", "uatom/lp"];
+
+/// the further denominations of a `dust` case
+pub const N_DUST: usize = 33;
+fn dust_denom(k: usize) -> String {
+    format!("udust{k:02}")
+}
 
 fn native_denoms(cw20: &[Addr]) -> Vec<String> {
     let mut v: Vec<String> = NATIVE.iter().map(|s| s.to_string()).collect();
@@ -129,6 +135,9 @@ pub struct Legacy {
     /// migration runs: the migration then has to fail as a whole (nothing changes), it must not drop anything
     #[serde(default)]
     pub token_query_fails: bool,
+    /// one-channel images: further channels (0-2) are opened after the upgrade went through
+    #[serde(default)]
+    pub late_channels: u8,
 }
 
 #[derive(Clone, Debug, Serialize, Deserialize, PartialEq)]
@@ -143,6 +152,10 @@ pub struct Case {
     /// chains number their channels independently)
     #[serde(default)]
     pub same_remote: bool,
+    /// before the history starts, user 0 sends one unit each of 33 further native denominations over
+    /// channel 0 (a channel that has carried more denominations than any page holds)
+    #[serde(default)]
+    pub dust: bool,
 }
 
 // ------------------------------------------------------------------ strategies
@@ -201,7 +214,7 @@ fn op(prop: &str, malicious: bool) -> BoxedStrategy<Op> {
         .prop_map(|(ch, tok, live, form, amt, receiver, payout_fails, memo)| Op::Recv { ch, tok, live, form, amt, receiver, payout_fails, memo })
         .boxed();
     // third arm: a well-formed packet whose denom trace names an odd, long, non-ASCII channel (error texts echo it)
-    let odd = (0usize..6, 20usize..70, 0u8..N_USERS as u8, prop_oneof![Just("uatom"), Just("ujuno")]).prop_map(|(pad, n, rcv, base)| {
+    let odd = (0usize..6, 20usize..70, 0u8..N_USERS as u8, prop_oneof![Just("uatom"), Just("UATOM")]).prop_map(|(pad, n, rcv, base)| {
         format!(r#"{{"amount":"1","denom":"transfer/{}{}/{base}","receiver":"{}","sender":"remote"}}"#, "x".repeat(pad), "\u{20ac}".repeat(n), user_addr(rcv as usize)).into_bytes()
     });
     let raw = (0u8..3, prop_oneof![3 => proptest::collection::vec(any::<u8>(), 0..40), 3 => "[{}\":,a-z0-9]{0,60}".prop_map(|s| s.into_bytes()), 2 => odd]).prop_map(|(ch, bytes)| Op::RecvRaw { ch, bytes }).boxed();
@@ -230,8 +243,8 @@ fn user_addr(i: usize) -> String {
 }
 
 fn legacy() -> BoxedStrategy<Legacy> {
-    (0u8..3, proptest::collection::vec((0u8..N_TOK as u8, prop_oneof![2 => Just(0u64), 5 => 0u64..3000], proptest::collection::vec(1u32..500, 0..3)), 1..4), proptest::collection::vec(any::<bool>(), N_CW20), gas(), proptest::bool::weighted(0.12))
-        .prop_map(|(version, tokens, listed, migrate_default_gas, token_query_fails)| Legacy { version, tokens, listed, migrate_default_gas, token_query_fails })
+    (0u8..3, proptest::collection::vec((0u8..N_TOK as u8, prop_oneof![2 => Just(0u64), 5 => 0u64..3000], proptest::collection::vec(1u32..500, 0..3)), 1..4), proptest::collection::vec(any::<bool>(), N_CW20), gas(), proptest::bool::weighted(0.12), prop_oneof![1 => Just(0u8), 1 => 1u8..3])
+        .prop_map(|(version, tokens, listed, migrate_default_gas, token_query_fails, late_channels)| Legacy { version, tokens, listed, migrate_default_gas, token_query_fails, late_channels })
         .boxed()
 }
 
@@ -254,9 +267,9 @@ pub fn case_strategy(prop: &str, tier: Tier) -> BoxedStrategy<Case> {
             let channels = if leg.is_some() { prop_oneof![6 => Just(1u8), 1 => 2u8..=3].boxed() } else { (1u8..=3).boxed() };
             // most tokens allowed so that transfers are live; C18 starts from sparser lists
             let allow = proptest::collection::vec((0u8..N_CW20 as u8, gas()), if p == "C18" { 0..3 } else { 1..4 });
-            (Just(mal), Just(leg), channels, allow, gas(), proptest::collection::vec(op(&p, mal), 0..max_ops), proptest::bool::weighted(0.2))
+            (Just(mal), Just(leg), channels, allow, gas(), proptest::collection::vec(op(&p, mal), 0..max_ops), proptest::bool::weighted(0.2), proptest::bool::weighted(if p == "C18" { 0.0 } else { 0.06 }))
         })
-        .prop_map(|(malicious, legacy, channels, allow, default_gas, ops, same_remote)| Case { channels, allow, default_gas, legacy, malicious, ops, same_remote })
+        .prop_map(|(malicious, legacy, channels, allow, default_gas, ops, same_remote, dust)| Case { channels, allow, default_gas, legacy, malicious, ops, same_remote, dust })
         .boxed()
 }
 
@@ -382,6 +395,7 @@ struct World {
     cw20: Vec<Addr>,
     natives: Vec<String>,
     n_ch: usize,
+    dust: bool,
 }
 
 fn chan_id(i: usize) -> String {
@@ -557,9 +571,13 @@ pub fn run_case(prop: &str, case: &Case, ctx: &mut CaseCtx) -> Result<(), Violat
         default_gas_limit: if case.legacy.is_some() { None } else { case.default_gas },
     };
     let ics20 = app.instantiate_contract(code, faucet.clone(), &init, &[], "ics20", Some(wasm_admin.to_string())).expect("ics20 instantiate");
-    let n_ch = case.channels.clamp(1, 3) as usize;
-    let mut w = World { app, users, govs, wasm_admin, relayer, ics20, code, cw20, natives, n_ch };
-    for i in 0..n_ch {
+    // channels connected before the history (and before the upgrade, in the upgrade arm); a one-channel
+    // upgrade may open further channels once it went through
+    let n_pre = case.channels.clamp(1, 3) as usize;
+    let late = case.legacy.as_ref().map(|l| if n_pre == 1 { l.late_channels as usize % 3 } else { 0 }).unwrap_or(0);
+    let n_ch = n_pre + late;
+    let mut w = World { app, users, govs, wasm_admin, relayer, ics20, code, cw20, natives, n_ch, dust: case.dust };
+    for i in 0..n_pre {
         let channel = IbcChannel::new(IbcEndpoint { port_id: w.port(), channel_id: chan_id(i) }, IbcEndpoint { port_id: REMOTE_PORT.into(), channel_id: remote_chan_id(i) }, IbcOrder::Unordered, "ics20-1", "connection-0");
         try_sudo(&mut w.app, &w.ics20.clone(), &Shim::ChannelConnect { msg: IbcChannelConnectMsg::new_ack(channel, "ics20-1") }).expect("channel connect");
     }
@@ -583,11 +601,11 @@ pub fn run_case(prop: &str, case: &Case, ctx: &mut CaseCtx) -> Result<(), Violat
     // ---- legacy arm: fabricate the old storage image, then migrate
     if let Some(l) = &case.legacy {
         let c = w.ics20.clone();
-        // entry k of the image lives on channel k % n_ch
+        // entry k of the image lives on channel k % n_pre
         let mut booked: BTreeMap<(usize, usize), (u128, Vec<u32>)> = BTreeMap::new();
         let mut unbooked: Vec<(usize, usize)> = vec![];
         for (k, (t, acked, inflight)) in l.tokens.iter().enumerate() {
-            let e = booked.entry((k % n_ch, *t as usize % N_TOK)).or_insert((0, vec![]));
+            let e = booked.entry((k % n_pre, *t as usize % N_TOK)).or_insert((0, vec![]));
             e.0 += *acked as u128;
             e.1.extend(inflight.iter().cloned());
         }
@@ -607,10 +625,10 @@ pub fn run_case(prop: &str, case: &Case, ctx: &mut CaseCtx) -> Result<(), Violat
             // Images with several channels are written exactly so (the upgrade has to refuse them anyway); with one
             // channel C12 does so for part of the pairs (see known finding C12/legacy-inflight-unbooked), the other
             // pairs carry a zero record
-            let no_record = *acked == 0 && !inflight.is_empty() && (n_ch >= 2 || (prop == "C12" && inflight[0] % 2 == 1));
+            let no_record = *acked == 0 && !inflight.is_empty() && (n_pre >= 2 || (prop == "C12" && inflight[0] % 2 == 1));
             if no_record {
                 ctx.count("legacy_pair_without_record");
-                if n_ch == 1 {
+                if n_pre == 1 {
                     unbooked.push((*ch, *tok));
                 }
             } else {
@@ -656,13 +674,18 @@ pub fn run_case(prop: &str, case: &Case, ctx: &mut CaseCtx) -> Result<(), Violat
         if let Err(e) = r {
             // the <= 0.13.0 migration refuses more than one channel and cannot complete without the tokens'
             // balances; a refused migration changes nothing and the old code keeps running: nothing to judge
-            if n_ch >= 2 || unreachable.is_some() {
+            if n_pre >= 2 || unreachable.is_some() {
                 ctx.count("legacy_migrate_refused");
                 return Ok(());
             }
             return Err(v(prop, "legacy-migrate-failed", format!("migrating a fabricated {version} storage image failed: {e}")));
         }
         ctx.flag("legacy");
+        for i in n_pre..n_ch {
+            let channel = IbcChannel::new(IbcEndpoint { port_id: w.port(), channel_id: chan_id(i) }, IbcEndpoint { port_id: REMOTE_PORT.into(), channel_id: remote_chan_id(i) }, IbcOrder::Unordered, "ics20-1", "connection-0");
+            try_sudo(&mut w.app, &w.ics20.clone(), &Shim::ChannelConnect { msg: IbcChannelConnectMsg::new_ack(channel, "ics20-1") }).expect("channel connect after the upgrade");
+            ctx.count("channel_opened_after_upgrade");
+        }
         // known finding: the <= 0.13.0 upgrade reconciles only the pairs that have a record, so the escrow of a
         // pair whose sends were all still unacknowledged stays unbooked for good
         if prop == "C12" && !unbooked.is_empty() {
@@ -690,6 +713,18 @@ pub fn run_case(prop: &str, case: &Case, ctx: &mut CaseCtx) -> Result<(), Violat
         }
     }
 
+    // dust: 33 further native denominations, one unit each, all over channel 0 and all still in flight
+    if case.dust {
+        let u0 = w.users[0].clone();
+        for k in 0..N_DUST {
+            let d = dust_denom(k);
+            w.app.sudo(SudoMsg::Bank(BankSudo::Mint { to_address: u0.to_string(), amount: coins(1, d.clone()) })).expect("mint");
+            let tmsg = TransferMsg { channel: chan_id(0), remote_address: "remote-dust".into(), timeout: None, memo: None };
+            try_exec(&mut w.app, &u0, &w.ics20.clone(), &ExecuteMsg::Transfer(tmsg), &[Coin::new(1u128, d)]).expect("a plain native transfer");
+            seq_out[0] += 1;
+        }
+        ctx.count("dust_channel");
+    }
     let mut pre = w.observe().map_err(qerr)?;
     // C18: the list starts as the instantiate message gives it: each initial entry with the limit it was given
     // (none = unlimited), nothing else listed, the default as requested
@@ -756,7 +791,20 @@ pub fn run_case(prop: &str, case: &Case, ctx: &mut CaseCtx) -> Result<(), Violat
                 };
                 let amount = if by_gov.is_some() { amount.min(1_000_000) } else { amount };
                 // (now and then pasted with white space around it: it is carried as given)
-                let remote = if step_no % 5 == 4 { format!(" remote-user-{} \n", step_no % 3) } else { format!("remote-user-{}", step_no % 3) };
+                // (and now and then left empty, blank, or very long: the contract forwards what it is given, and a
+                // transfer it accepted can be refused by the other side or time out like any other)
+                let remote = match step_no % 23 {
+                    3 => String::new(),
+                    9 => "   ".to_string(),
+                    15 => format!("remote-user-{}", "z".repeat(3000)),
+                    _ if step_no % 5 == 4 => format!(" remote-user-{} \n", step_no % 3),
+                    _ => format!("remote-user-{}", step_no % 3),
+                };
+                let memo: Option<String> = match memo {
+                    Some(m) if step_no % 7 == 2 => Some(format!("{m}{}", "m".repeat(40_000))),
+                    other => other.clone(),
+                };
+                let memo = &memo;
                 let tmsg = TransferMsg { channel: if ch_exists { chan_id(chx) } else { "channel-77".into() }, remote_address: remote.clone(), timeout: timeout.map(|t| t as u64), memo: memo.clone() };
                 let r = if is_native {
                     try_exec(&mut w.app, &w.users[by].clone(), &w.ics20.clone(), &ExecuteMsg::Transfer(tmsg), &[Coin::new(amount, w.natives[tok].clone())])
@@ -1184,8 +1232,15 @@ pub fn run_case(prop: &str, case: &Case, ctx: &mut CaseCtx) -> Result<(), Violat
                             check_gas(prop, &w, &pre, &subs, &at, ctx, allow_changed)?;
                         }
                     }
-                    Err(_) => {
+                    Err(e) => {
                         ctx.count("ack_handling_failed");
+                        // C12 (an honest counterparty: every packet is acknowledged or times out once): a send that
+                        // failed or timed out comes off the balance - the handler has no reason to abort. (Upgraded
+                        // contracts are left out: there a refund in a token that is not on the allow list yet
+                        // is refused until governance allows the token, and can be retried then.)
+                        if prop == "C12" && case.legacy.is_none() && p.state != PState::Done {
+                            return Err(v(prop, "failed-send-not-processed", format!("{at}: handling the {} of a packet this contract sent ({} of {}, still {:?}) aborted: {}", if *success_ack { "success acknowledgement" } else { "error acknowledgement / timeout" }, p.amount, w.local_denom(p.tok), p.state, &e[..e.len().min(200)])));
+                        }
                         if post != pre {
                             return Err(v(prop, "failed-ack-changed-state", format!("{at}: failed acknowledgement handling changed state")));
                         }
@@ -1405,8 +1460,18 @@ fn check_state(prop: &str, w: &World, o: &Obs, sent: &[[u128; N_TOK]], failed: &
                     }
                 }
                 for d in o.chans[ch].keys() {
-                    if !(0..N_TOK).any(|t| w.local_denom(t) == *d) {
+                    let dust = w.dust && ch == 0 && (0..N_DUST).any(|k| dust_denom(k) == *d);
+                    if !dust && !(0..N_TOK).any(|t| w.local_denom(t) == *d) {
                         return Err(v(prop, "unknown-denom-in-channel", format!("{at}: channel {ch} reports a balance for unknown denom {d}")));
+                    }
+                }
+                // every dust denomination was sent once (one unit) and is neither failed nor redeemed
+                if w.dust && ch == 0 {
+                    for k in 0..N_DUST {
+                        let d = dust_denom(k);
+                        if o.chans[0].get(&d) != Some(&(1, 1)) {
+                            return Err(v(prop, "balance-identity", format!("{at}: channel 0 {d}: reported (outstanding, total sent) {:?} != (1, 1): one unit was sent and is still in flight", o.chans[0].get(&d))));
+                        }
                     }
                 }
             }
@@ -1426,6 +1491,7 @@ pub fn raw_packet_case(bytes: &[u8]) -> Case {
         legacy: None,
         malicious: false,
         same_remote: false,
+        dust: false,
         ops: vec![
             Op::SendNative { by: 0, ch: 0, denom: 0, amt: SendAmt::Abs(1000), timeout: None, memo: None },
             Op::SendCw20 { by: 1, ch: 0, tok: 0, amt: SendAmt::Abs(700), timeout: Some(50), memo: Some("m".into()) },
@@ -1509,7 +1575,7 @@ pub fn decode_case(prop: &str, u: &mut arbitrary::Unstructured) -> Case {
                 (arb_below(u, N_TOK) as u8, if arb_bool(u, 1, 3) { 0 } else { u.arbitrary::<u16>().unwrap_or(0) as u64 % 3000 }, (0..k).map(|_| 1 + u.arbitrary::<u16>().unwrap_or(0) as u32 % 500).collect())
             })
             .collect();
-        Some(Legacy { version: arb_below(u, 3) as u8, tokens, listed: (0..N_CW20).map(|_| arb_bool(u, 1, 2)).collect(), migrate_default_gas: d_gas(u), token_query_fails: arb_bool(u, 1, 8) })
+        Some(Legacy { version: arb_below(u, 3) as u8, tokens, listed: (0..N_CW20).map(|_| arb_bool(u, 1, 2)).collect(), migrate_default_gas: d_gas(u), token_query_fails: arb_bool(u, 1, 8), late_channels: if arb_bool(u, 1, 2) { 1 + arb_below(u, 2) as u8 } else { 0 } })
     } else {
         None
     };
@@ -1588,5 +1654,6 @@ pub fn decode_case(prop: &str, u: &mut arbitrary::Unstructured) -> Case {
         ops.push(op);
     }
     let same_remote = arb_bool(u, 1, 5);
-    Case { channels, allow, default_gas, legacy, malicious, ops, same_remote }
+    let dust = prop != "C18" && arb_bool(u, 1, 16);
+    Case { channels, allow, default_gas, legacy, malicious, ops, same_remote, dust }
 }
